@@ -1,4 +1,4 @@
-#!/bin/sh
+#!/bin/bash
 # run verify_seed for the listed ids, N at a time
 for id in "$@"; do
   p=${id%-*}; x=${id#*-}
